@@ -145,6 +145,19 @@ def main():
     for fn in os.listdir(src):
         if os.path.isfile(os.path.join(src, fn)):
             shutil.copy(os.path.join(src, fn), os.path.join(dst, fn))
+    # a re-evaluation with --skip-confirm keeps the confirmation fields of the earlier run
+    if skip_confirm and os.path.exists(os.path.join(dst, "meta.json")):
+        try:
+            prev = json.load(open(os.path.join(dst, "meta.json"))).get("verif_results", {})
+            for k in ("demo_without_change", "demo_with_change", "demo_with_output_tail", "baseline_with_change", "confirmed_at"):
+                if k in prev and k not in res:
+                    res[k] = prev[k]
+            hist = prev.get("earlier_check_runs", [])
+            if prev.get("checks"):
+                hist.append({"repo_head": prev.get("repo_head"), "checks": prev["checks"]})
+            res["earlier_check_runs"] = hist
+        except Exception:
+            pass
     meta["verif_results"] = res
     meta["what_we_ran"] = "vlib/seedconfirm.py: scratch worktree at /repo HEAD; demo without/with patch under the ipfs-stub overlay; pinned baseline (go test ./...) with patch; ./check <id> %s with VERIF_REPO=<worktree>" % tier
     json.dump(meta, open(os.path.join(dst, "meta.json"), "w"), indent=1)
